@@ -9,7 +9,7 @@ import sqlite3
 import tempfile
 import time
 
-from .core import DEFAULT_SETTINGS, ENOVAL, Cache, Disk, Timeout
+from .core import DBNAME, DEFAULT_SETTINGS, ENOVAL, Cache, Disk, Timeout
 from .persistent import Deque, Index
 
 
@@ -35,21 +35,34 @@ class FanoutCache:
         directory = op.expandvars(directory)
 
         default_size_limit = DEFAULT_SETTINGS['size_limit']
+        explicit_size_limit = 'size_limit' in settings
         size_limit = settings.pop('size_limit', default_size_limit) / shards
 
         self._count = shards
         self._directory = directory
         self._disk = disk
-        self._shards = tuple(
-            Cache(
-                directory=op.join(directory, '%03d' % num),
-                timeout=timeout,
-                disk=disk,
-                size_limit=size_limit,
-                **settings,
+        caches = []
+
+        for num in range(shards):
+            shard_dir = op.join(directory, '%03d' % num)
+            shard_settings = dict(settings)
+
+            # An existing shard keeps its stored size limit, like every other
+            # setting, unless a size limit is given.
+
+            if explicit_size_limit or not op.exists(op.join(shard_dir, DBNAME)):
+                shard_settings['size_limit'] = size_limit
+
+            caches.append(
+                Cache(
+                    directory=shard_dir,
+                    timeout=timeout,
+                    disk=disk,
+                    **shard_settings,
+                )
             )
-            for num in range(shards)
-        )
+
+        self._shards = tuple(caches)
         self._hash = self._shards[0].disk.hash
         self._caches = {}
         self._deques = {}
